@@ -788,3 +788,35 @@ impl<T> Iterator for RawDrain<'_, T> {
 
 impl<T> ExactSizeIterator for RawDrain<'_, T> {}
 impl<T> FusedIterator for RawDrain<'_, T> {}
+
+/// Read-only view of the resize state, for external checkers.
+#[cfg(feature = "verif-hooks")]
+#[derive(Debug, Clone, Copy, PartialEq, Eq)]
+pub struct VerifState {
+    /// Number of elements moved out of the old table per inserting call.
+    pub r: usize,
+    /// Elements in the main table.
+    pub main_len: usize,
+    /// Capacity of the main table.
+    pub main_capacity: usize,
+    /// Buckets of the main table.
+    pub main_buckets: usize,
+    /// `Some((elements, buckets, elements the cached iterator still expects))` while a resize is pending.
+    pub old: Option<(usize, usize, usize)>,
+}
+
+#[cfg(feature = "verif-hooks")]
+impl<T> RawTable<T> {
+    pub(crate) fn verif_state(&self) -> VerifState {
+        VerifState {
+            r: R,
+            main_len: self.table.len(),
+            main_capacity: self.table.capacity(),
+            main_buckets: self.table.buckets(),
+            old: self
+                .leftovers
+                .as_ref()
+                .map(|lo| (lo.table.len(), lo.table.buckets(), lo.items.len())),
+        }
+    }
+}
